@@ -250,7 +250,7 @@ pub fn message_strategy() -> BoxedStrategy<Vec<u8>> {
         2 => (1usize..40, 0usize..5).prop_map(|(k, d)| 136 * k - 40 + d - 2),
         1 => 254usize..259,
         1 => 600usize..5000,
-        1 => prop_oneof![1022usize..1027, 4094usize..4099, 65534usize..65539],
+        1 => prop_oneof![4 => 1022usize..1027, 4 => 4094usize..4099, 4 => 65534usize..65539, 1 => 1_048_574usize..1_048_579],
     ];
     let fill = prop_oneof![6 => Just(None), 1 => Just(Some(0u8)), 1 => Just(Some(0xFFu8))];
     (len, fill, any::<u64>())
